@@ -82,20 +82,33 @@ def nodal_analysis_constants_vector(network: Network, node_mapper: map.NetworkMa
     V = np.array([network[vs].element.V for vs in vs_mapping.keys])
     return np.hstack((I, V))
 
+def conductively_connected_nodes(network: Network, node: str) -> set[str]:
+    reached, frontier = {node}, [node]
+    while len(frontier) > 0:
+        current_node = frontier.pop()
+        for b in network.branches_connected_to(current_node):
+            neighbour = b.node1 if b.node1 != current_node else b.node2
+            if b.element.Y != 0 and neighbour not in reached:
+                reached.add(neighbour)
+                frontier.append(neighbour)
+    return reached
+
 def open_circuit_impedance(network: Network, node1: str, node2: str, node_index_mapper: map.NetworkMapper = map.default_node_mapper) -> complex:
     if node1 == node2:
         return 0
     if any([is_ideal_voltage_source(b.element) for b in network.branches_between(node1, node2)]):
         return 0
-    if network.is_zero_node(node1):
-        node1, node2 = node2, node1
-    network = trf.switch_ground_node(network=network, new_ground=node2)
-    Y = node_admittance_matrix(network, node_index_mapper=node_index_mapper)
-    Y = np.delete(Y, np.where(~Y.any(axis=0))[0], axis=1)
-    Y = np.delete(Y, np.where(~Y.any(axis=1))[0], axis=0)
-    Z = np.linalg.inv(Y)
+    port_nodes = conductively_connected_nodes(network, node1)
+    if node2 not in port_nodes:
+        return np.inf
+    network = Network([b for b in network.branches if b.node1 in port_nodes and b.node2 in port_nodes], node_zero_label=node2)
+    A = nodal_analysis_coefficient_matrix(network, node_mapper=node_index_mapper)
     i1 = node_index_mapper(network)[node1]
-    return Z[i1][i1]
+    unit_current = np.zeros(A.shape[0])
+    unit_current[i1] = 1
+    if np.linalg.matrix_rank(A) < A.shape[0]:
+        return np.linalg.lstsq(A, unit_current, rcond=None)[0][i1]
+    return np.linalg.solve(A, unit_current)[i1]
 
 def element_impedance(network: Network, element: str, node_index_mapper: map.NetworkMapper = map.default_node_mapper) -> complex:
     return open_circuit_impedance(
